@@ -43,7 +43,7 @@ class Recorder:
 
     def __call__(self, *args):
         with self.lock:
-            self.events.append(args + (threading.current_thread().name,))
+            self.events.append(args + (threading.current_thread().name, time.monotonic()))
 
 
 def make_classes(rec, spec):
@@ -372,7 +372,7 @@ def check(ctx, spec):
     lifecycle += sorted(ios)
     idx = {}
     for n, e in enumerate(events):
-        idx.setdefault((e[0], e[1] if len(e) > 2 else None), []).append(n)
+        idx.setdefault((e[0], e[1] if len(e) > 3 else None), []).append(n)
     ready_at = idx[('ready', None)][0]
     for name in lifecycle:
         counts = {k: len(idx.get((k, name), [])) for k in ('early', 'init', 'start')}
@@ -412,6 +412,11 @@ def check(ctx, spec):
             first = [n for n, e in enumerate(events) if e[0] == 'read-done' and e[1] == name]
             anyslow = any(x.get('slow') for x in spec['mods'])
             if (not first or first[0] > ready_at) and not anyslow:
+                # "or timed out": on a loaded machine a first round may take longer than the (shortened) start time-out
+                t_start = max([e[-1] for e in events[:ready_at] if e[0] == 'start'], default=None)
+                if t_start is not None and events[ready_at][-1] - t_start >= START_TIMEOUT * 0.9:
+                    ctx.label('ready-after-start-timeout')
+                    continue
                 ctx.finding('ready-before-first-poll-round', spec, f'{name}: first read at {first[:1]}, ready at {ready_at}')
                 return
     ctx.ok('ready-after-first-round')
